@@ -43,7 +43,7 @@ class Reader:
         return bytes(self.buf[pos:i]), i + 2
 
     def _parse(self, pos, depth):
-        if depth > 64:
+        if depth > 300:
             raise ProtocolError('nesting too deep')
         if pos >= len(self.buf):
             return None
